@@ -51,6 +51,27 @@ theorem C15_roundtrip (F : Fmt) (e : Exc) (own : Text) (hl : e.live = some own) 
     subst ht
     exact List.IsInfix.trans ⟨p, [], by simp⟩ h3
 
+/-- the same for ANY first hop (the holder may raise the exception again before the first wrap) and
+    any exception that carries tracebacks (live, or already remote and merely forwarded): with
+    `t0` the text `RemoteException.__init__` computes at the first hop — prefix ++ formatted
+    traceback if there is a live one, the carried remote text otherwise — the final remote text
+    contains `t0`; class and arguments are unchanged -/
+theorem C15_roundtrip_general (F : Fmt) (e : Exc) (hok : e.ok = true) (h0 : Hop) (hs : List Hop) :
+    ∃ e' t0 t, run F e (h0 :: hs) = some e' ∧ e'.cls = e.cls ∧ e'.args = e.args ∧ e'.isRemote = true ∧
+      wrapText F h0.proc (h0.pre e).live (h0.pre e).cause .dflt = some t0 ∧
+      e'.remoteTb = some t ∧ t0 <:+: t := by
+  obtain ⟨c, a, t0, m, h1, hm, ht, hi⟩ := step_first F e hok h0
+  obtain ⟨t', h2, h3, _⟩ := run_recv F c a m hm hs t0
+  refine ⟨.mk c a none (.remote t') m, t0, t', by rw [run_cons_eq F e _ _ hs h1]; exact h2, ?_, ?_, rfl, ht, rfl, h3⟩
+  · cases e with
+    | mk c0 a0 l k m0 =>
+      simp only [Hop.pre] at hi
+      cases hr : h0.reraise <;> simp only [hr, Exc.raised, ImgT, Exc.cls_mk] at hi ⊢ <;> exact hi.1
+  · cases e with
+    | mk c0 a0 l k m0 =>
+      simp only [Hop.pre] at hi
+      cases hr : h0.reraise <;> simp only [hr, Exc.raised, ImgT, Exc.args_mk] at hi ⊢ <;> exact hi.2.1
+
 /-- **forwarding is the identity**: after the first hop, any number of further hops that do not
     raise the exception again give back the *same* exception — class, arguments, remote text
     (identical, not merely containing), nested results -/
